@@ -37,7 +37,7 @@ for p in props:
         'level_claimed': {
             'category': 'proof',
             'text': getattr(mod, 'LEVEL_TEXT', 'Coq theorems about an executable Gallina model + model/implementation correspondence'),
-            'design_ref': 'DESIGN.md section 4, ' + pid,
+            'design_ref': 'DESIGN.md section 13 (as built) and section 4 (plan), ' + pid,
         },
         'level_note': getattr(mod, 'LEVEL_NOTE', '; '.join(getattr(mod, 'TRUSTED', []) + getattr(mod, 'ASSUMPTIONS', []))),
         'technique': getattr(mod, 'TECHNIQUE', 'machine-checked proof in Coq 8.16 about a hand-written executable model, tied to the '
